@@ -7,7 +7,8 @@ from fractions import Fraction
 from sa.report import Cx
 from sa.walker import WalkOptions
 from sa.terms import (Sym, Attr, Sub, App, Num, Fresh, Const, TupleT, AIn, ACmp, ATruthy, f_not, f_and, implies, mk_cmp, compare)
-from .common import (CORE, ENV, check_atomic, check_pure, check_lookup, strip_versions, iteration_sources, order_class)
+from .common import (CORE, ENV, check_atomic, check_pure, check_lookup, strip_versions, iteration_sources, order_class,
+                     check_presence_not_truthiness, check_keyed_insert, check_keyed_delete)
 
 PID = 'C03'
 EXPLANATION = (
@@ -325,3 +326,44 @@ def run(cx: Cx):
     check_pure(cx, gc.qualname)
     check_pure(cx, CORE + 'SystemManager.__getitem__')
     check_lookup(cx, gc.qualname, Attr(Sym(gc.params[0]), 'component_pools'), Sym(gc.params[1]), 'KeyError')
+
+    # ------------------------------------------------------------ clause 7: what join / leave are built on
+    # join and leave fetch each component through agent[key] == Agent.get_component(key): the accessor must return the entry
+    # whenever the key is present (a truthiness test would hand back None for a falsy component, and None gets registered)
+    gcomp = cx.fn(CORE + 'Agent.get_component')
+    check_lookup(cx, gcomp.qualname, Attr(Sym(gcomp.params[0]), 'components'), Sym(gcomp.params[1]), 'ComponentNotFoundError')
+    gi = cx.fn(CORE + 'Agent.__getitem__')
+    for p in cx.walker.paths(gi, WalkOptions(unroll=0)):
+        v = strip_versions(p.last.data.get('value')) if p.end == 'return' else None
+        sym_self, item = Sym(gi.params[0]), Sym(gi.params[1])
+        oks = (App('call:' + gcomp.qualname, (sym_self, item)), Sub(Attr(sym_self, 'components'), item), App('.get', (Attr(sym_self, 'components'), item)),
+               App('.get', (Attr(sym_self, 'components'), item, Const(None))))
+        if v in oks or (isinstance(v, App) and v.fn == 'call:' + gcomp.qualname and v.args[:2] == (sym_self, item) and
+                        (len(v.args) == 2 or v.args[2] == Const(False)) and all(val == Const(False) for _, val in v.kw)):
+            cx.ok('R-FWD', 'agent[key] is the lenient component lookup', where=cx.where(gi), function=gi.qualname)
+        else:
+            cx.violation('R-FWD', gi.qualname, 'getitem-is-the-component-lookup', f"Agent.__getitem__ returns {v!r}, not the agent's "
+                         f"component of the requested type (None when absent)", where=cx.where(gi))
+    check_presence_not_truthiness(cx, [gcomp.qualname, add.qualname, rem.qualname, REG, DEREG])
+    # listings of THIS environment's model: (de)registration goes to self.model.systems, whatever model the agent was built with
+    for fn, callee_q in ((add, REG), (rem, DEREG)):
+        want = Attr(Attr(Sym(fn.params[0]), 'model'), 'systems')
+        bad = None
+        cnt = 0
+        for p in cx.walker.paths(fn, WalkOptions(unroll=1)):
+            for e in _calls_to(p, callee_q):
+                cnt += 1
+                if strip_versions(e.data.get('recv')) != want and bad is None:
+                    bad = e
+        if bad is not None:
+            cx.violation('R-PAIR', fn.qualname, 'listing-of-the-environments-own-model',
+                         f"{fn.qualname} calls {callee_q.rsplit('.', 1)[-1]} on {bad.data.get('recv')!r}; join and leave must both go to "
+                         f"{want!r}, otherwise an agent built for another model is listed there and never leaves it",
+                         where=cx.where(fn, bad.line))
+        elif cnt:
+            cx.ok('R-PAIR', f"{fn.name}: (de)registration goes to the environment's own model", where=cx.where(fn), function=fn.qualname)
+    # attach / detach keep one component per type and reject duplicates / unknown types before writing
+    addc, remc = cx.fn(CORE + 'Agent.add_component'), cx.fn(CORE + 'Agent.remove_component')
+    comp = Sym(addc.params[1])
+    check_keyed_insert(cx, addc.qualname, CLOC, Attr(Sym(addc.params[0]), 'components'), App('type', (comp,)), comp)
+    check_keyed_delete(cx, remc.qualname, CLOC, Attr(Sym(remc.params[0]), 'components'), Sym(remc.params[1]))
